@@ -582,9 +582,9 @@ func init() {
 		Level: "exploration",
 		Cases: func(tier string) int {
 			if tier == "thorough" {
-				return 600000
+				return 6000000
 			}
-			return 40000
+			return 150000
 		},
 		Init: func() {
 			initFastGlobals()
